@@ -1,3 +1,18 @@
 import CalmVerif.Props.C09
-#print axioms CalmVerif.Props.C09.stub
-#check @CalmVerif.Props.C09.stub
+open CalmVerif.Props.C09
+#print axioms write_decodes
+#check @write_decodes
+#print axioms write_decodes_normalized
+#check @write_decodes_normalized
+#print axioms indices_in_range
+#check @indices_in_range
+#print axioms gen_columns_monotone
+#check @gen_columns_monotone
+#print axioms line_count
+#check @line_count
+#print axioms write_WFMappings
+#check @write_WFMappings
+#print axioms multi_source
+#check @multi_source
+#print axioms written_text
+#check @written_text
